@@ -67,6 +67,17 @@ def _cache_key(env):
     return h.hexdigest()[:20]
 
 
+def _split_rows(raw, info):
+    """Case rows (expanded); the state-hint probe row of the harness goes to info["hint_probe"]."""
+    rows = []
+    for r in raw:
+        if "hint_probe" in r:
+            info["hint_probe"] = r["hint_probe"]
+        else:
+            rows.append(cc.expand_row(r))
+    return rows
+
+
 def run_punish_harness(ctx, env=None, suffix="", timeout=2400, use_cache=True):
     """Returns (rows, info).  rows is None when the harness could not be run."""
     e = {"VERIF_SEED": str(ctx.seed), "VERIF_TIER": ctx.tier}
@@ -91,7 +102,7 @@ def run_punish_harness(ctx, env=None, suffix="", timeout=2400, use_cache=True):
             except OSError:
                 pass
         if os.path.exists(cache):
-            rows = [cc.expand_row(r) for r in _v.read_jsonl(cache)]
+            rows = _split_rows(_v.read_jsonl(cache), info)
             if rows:
                 info["cached"] = True
                 info["trace"] = cache
@@ -100,7 +111,7 @@ def run_punish_harness(ctx, env=None, suffix="", timeout=2400, use_cache=True):
     uid = ctx.uid("_pun" + suffix + "p%d" % os.getpid())
     rc, trace, out = run_harness(uid, PKG, FILES, TEST, env=e, timeout=timeout)
     info.update({"rc": rc, "harness_s": round(time.time() - t0, 1), "trace": trace})
-    rows = [cc.expand_row(r) for r in _v.read_jsonl(trace)]
+    rows = _split_rows(_v.read_jsonl(trace), info)
     if rc != 0 or not rows:
         ctx.violation("harness_failed", "TestVerifPunish", {"rc": rc, "log": out[-4000:]},
                       signature="harness", failing_input=False)
